@@ -72,8 +72,8 @@ def _n_entries(base):
 
 def _run_case(case):
     if 'outline' in case:
-        return {'outline': case['outline'], 'behaviour': case['behaviour'], 'schedule': []}
-    return {'program': case['program'], 'schedule': []}
+        return {'outline': case['outline'], 'behaviour': case['behaviour'], 'schedule': [], 'decoy_loop': bool(case.get('own_loop'))}
+    return {'program': case['program'], 'schedule': [], 'decoy_loop': bool(case.get('own_loop'))}
 
 
 def enumerate_cases(tier, scope):
@@ -87,6 +87,9 @@ def enumerate_cases(tier, scope):
                     case = copy.deepcopy(base)
                     case.update({'crash': list(crash), 'medium': medium})
                     yield case
+                    if k == 1 and medium == 'pickle':
+                        # the same with a loop of its own, everything done from synchronous code while no loop runs
+                        yield dict(copy.deepcopy(case), own_loop=True)
 
 
 @st.composite
